@@ -221,10 +221,13 @@ def enabled(w, subsets, extend):
                 ops.append((("read", b, "stale"), False))
         else:
             ops.append((("delete", b), True))
-            ops.append((("lookup", b), False))
-            ops.append((("describe", b, "fresh"), False))
+            # reads extend histories too: on the unchanged tree they lead back to the same canonical
+            # state (or only flush sqlite's buffered writes), but a read that populates a cache is a
+            # new state from which delete / re-create must still behave (seeded stale read-side cache)
+            ops.append((("lookup", b), True))
+            ops.append((("describe", b, "fresh"), True))
             ops.append((("describe", b, "stale"), False))
-            ops.append((("read", b, "stale"), False))
+            ops.append((("read", b, "stale"), True))
             if len(w.model[b]["events"]) < 1:
                 ops.append((("insert", b, "fresh"), True))
                 ops.append((("insert", b, "stale"), True))
@@ -249,6 +252,9 @@ def check_op(w, op):
     ds = w.ds
     raw0 = raw(ds)
     want, got, unchanged = apply(w, op)
+    # canonical form of the state a replay of (history + op) reconstructs: taken BEFORE the
+    # observation below, whose reads may themselves change hidden state (flush, fill caches)
+    w.canon_after = (S.canon_full(ds, False), tuple(sorted(w.stale)))
     probs = []
     if want == "any":
         pass
@@ -289,7 +295,7 @@ def _expand(hist):
                 case = {"backend": backend, "history": [list(o) for o in hist], "op": list(op), "buckets": list(_G["buckets"])}
                 u.violation(f"{backend}:{sym}", f"{backend} history {list(hist)} op {op}: {det}", case, size=len(hist) * 100 + len(json.dumps(case)))
         elif ext:
-            succ.append(((S.canon_full(w.ds, False), tuple(sorted(w.stale))), tuple(hist) + (op,)))
+            succ.append((w.canon_after, tuple(hist) + (op,)))
     if len(hist) == 2:
         u.sample({"backend": backend, "history": [list(o) for o in hist], "ops_applied_from_here": [list(o) for o, _ in ops][:6]}, cap=1)
     r = u.result()
@@ -311,7 +317,7 @@ def run(ctx):
     per = {}
     for backend in S.BACKENDS:
         _G["cfg"] = {"backend": backend, "subsets": ALL_SUBSETS if ctx.thorough else QUICK_SUBSETS}
-        agg, seen = engine.bfs(ctx, _expand, [()], label=backend)
+        agg, seen = engine.bfs(ctx, _expand, [()], label=backend, max_states=20000, cap_s=1800 if ctx.thorough else 240)
         per[backend] = {"states": agg.states, "transitions": agg.transitions, "max_depth": agg.max_depth}
         _merge(total, agg)
     total.extra["per_backend"] = per
